@@ -87,6 +87,10 @@ theorem set_casId_le (s : MemStore) (now : Nat) (k : Key) (r : Record) : s.casId
     · simp
   · simp
 
+theorem set_eq_casId_le {s s2 : MemStore} {now : Nat} {k : Key} {r : Record} {res : Except CacheError Nat}
+    (h : s.set now k r = (s2, res)) : s.casId ≤ s2.casId := by
+  have := set_casId_le s now k r; rw [h] at this; exact this
+
 /-! ### `delete` -/
 
 theorem delete_ok (s : MemStore) (k : Key) (cas : Nat) (r : Record) (hl : s.mem.lookup k = some r)
